@@ -1,5 +1,6 @@
 import BeyondVerif.Model.InterpR
 import Mathlib.Tactic.Linarith
+import Mathlib.Tactic.NormNum
 import Mathlib.Data.List.Basic
 /-!
 C09: the Lagrange formula of `Interp._lagrange`, *translated from the numpy source on every run*
@@ -252,6 +253,12 @@ theorem lagrangeFormula_eq (k : ℕ) (xs : List ℝ) (ys : List (List ℝ)) (x :
   · subst h; simp
   · have h' : m ≠ j := fun e => h e.symm
     simp [h, h']
+
+/-- the hypotheses are met, and the translated chain computes: two nodes 0, 1 with ordinates 1, 3 give 2 at 1/2 -/
+example : lagrangeFormula ((2 : ℕ) : Int) [(0 : ℝ), 1] [[1], [3]] (1 / 2) = some [2] := by
+  rw [lagrangeFormula_eq 2 _ _ _ (by omega) rfl rfl]
+  simp [lagrangeEval, columns, lagrangeCol, lagWeight, List.range_succ]
+  norm_num
 
 /-- numpy refuses (`reshape(order, order)`) a window whose abscissae are not `order` many -/
 theorem lagrangeFormula_refuses (k : ℕ) (xs : List ℝ) (ys : List (List ℝ)) (x : ℝ) (hk : 1 ≤ k) (hx : xs.length ≠ k) :
